@@ -84,7 +84,8 @@ def judge(s, r):
                     for i, (a, b) in enumerate(zip(s.src_obj.children, nt.children)):
                         same(a, b, True, diffs, [i], False)
         for tag, text in diffs:
-            finding = "KF-C07-typed-copy-default-kind" if tag == "kind-top" else None
+            # the known finding is add_child(<TypedNode>) without kind= (add(node), copy_to, Node.copy); add(<TypedTree>) passes the kinds on
+            finding = "KF-C07-typed-copy-default-kind" if tag == "kind-top" and k != "w.addtree" else None
             out.append(("unfaithful-" + tag, f"{H.clean(op)}: {text}", finding))
             break
         # the source is left unchanged (cross-tree copies: the whole source tree)
@@ -209,6 +210,9 @@ def run(ctx):
     _hist.exhaustive_single_ops(ctx, out, judge, max_nodes=3 if ctx.thorough else 2, alphabet=[0, 1, 6],
                                 ops_of=lambda impl, ti: [o for o in _hist.all_single_ops(impl, ti, labels=[0, 6]) if o["op"] in COPY_OPS],
                                 label_limit=4 if ctx.thorough else 2)
+    _hist.exhaustive_single_ops(ctx, out, judge, max_nodes=2, alphabet=[0, 1, 6], typed=True,
+                                ops_of=lambda impl, ti: [o for o in _hist.all_single_ops(impl, ti, labels=[0, 6]) if o["op"] in COPY_OPS],
+                                label_limit=2)
     campaign(ctx, out, 1200 if ctx.thorough else 140, 60 if ctx.thorough else 25)
     return out
 
